@@ -367,6 +367,10 @@ class PDFStandardSecurityHandler:
         if self.r not in self.supported_revisions:
             error_msg = "Unsupported revision: param=%r" % self.param
             raise PDFEncryptionError(error_msg)
+        if self.r >= 3 and self.length < 40:
+            # revision 3 and later use the first Length / 8 bytes as the key
+            error_msg = "Unsupported key length: param=%r" % self.param
+            raise PDFEncryptionError(error_msg)
         self.init_key()
 
     def init_params(self) -> None:
